@@ -31,7 +31,9 @@ func verifC20FuncByEnum(e remoteexecution.DigestFunction_Value) verifC20Func {
 // are equal exactly when function, hash, size (and, for KeyWithInstance,
 // instance name) agree.
 func Verif_C20_D4_Keys() {
-	type fp struct{ a, b remoteexecution.DigestFunction_Value }
+	type fp struct {
+		a, b remoteexecution.DigestFunction_Value
+	}
 	fpairs := []fp{
 		{remoteexecution.DigestFunction_SHA256, remoteexecution.DigestFunction_SHA256},
 		{remoteexecution.DigestFunction_SHA256, remoteexecution.DigestFunction_SHA256TREE},
